@@ -1345,10 +1345,14 @@ fn handle_fn(
                 log.push(format!("R5:match on str {} -> if chain", n));
             }
             "closure" => {
-                let c = scan
-                    .closures
-                    .get(n)
-                    .ok_or_else(|| format!("closure {} not found ({} closures)", n, scan.closures.len()))?;
+                let c = match scan.closures.get(n) {
+                    Some(c) => c,
+                    None if e["opt"].as_bool() == Some(true) => {
+                        log.push(format!("R3:closure {} absent (optional)", n));
+                        continue;
+                    }
+                    None => return Err(format!("closure {} not found ({} closures)", n, scan.closures.len())),
+                };
                 let header = e["header"].as_str().ok_or("closure: header missing")?;
                 edits.replace(c.header.clone(), format!("{} ", header));
                 if !c.body_is_block {
